@@ -352,9 +352,10 @@ func substringByRune(str string, start, length int64, hasLength bool) (string, e
 	if length < 0 {
 		return "", nil
 	}
-	end := start + length
-	if end > runeLen {
-		end = runeLen
+	// (start + length can overflow for a huge length: compare with what is left instead)
+	end := runeLen
+	if length < runeLen-start {
+		end = start + length
 	}
 	return string(runes[start:end]), nil
 }
